@@ -67,9 +67,10 @@ Theorem c06_strict_refuted :
   spec_decode (enc (AStrict [([97], ANull)])) = None.
 Proof. vm_compute. repeat split; reflexivity. Qed.
 
-(* 5. The library decoder the harness executes (extracted [decode_fast]) is [decode]. *)
-Theorem c06_model_fast p : decode_fast p = decode p.
-Proof. exact (decf_eq p). Qed.
+(* 5. The library codec the harness executes (extracted [decode_fast], [enc_fast]: linear time)
+   is [decode], [enc]. *)
+Theorem c06_model_fast p v : decode_fast p = decode p /\ enc_fast v = enc v.
+Proof. split; [exact (decf_eq p)|exact (enc_fast_eq v)]. Qed.
 
 (* non-vacuity of 1./2.: a nested tree with a repeated key, an empty key, an ECMA array whose
    count differs from its length and an empty strict array *)
